@@ -197,6 +197,7 @@ def run_lattice(case, res):
     qlat = np.array([b for a in QLON for b in QLAT] + elat.tolist())
     # poles: longitude is irrelevant but must be a legal number
     D = _brute(tree, qlon, qlat, elon, elat, exyz)
+    pool.fresh()  # the reference grid was read in its own execution: nothing it left behind may reach the grid under test
     g = build.grid(m)
     focus = dict(case)
 
